@@ -131,8 +131,8 @@ def restructure_precondition(program, rep: Report) -> None:
     from sa.report import load_known, match_known
     known = load_known(rep.prop)
     for v in rep.violations:
-        if match_known(known, v) is not None:
-            keep.append(v)  # a listed finding stays what it is
+        if match_known(known, v) is not None or v.detail.get("positive"):
+            keep.append(v)  # a listed finding stays what it is; so does one the rule marks as naming a wrong construct (positive=True)
             continue
         owner = v.construct.split(" :: ")[0].split(" [entry")[0].strip()
         owners = [owner.replace(".*.", f".{side}.") for side in ("wsgi", "asgi")] + [owner.replace(".*.", ".")] if ".*." in owner else owner.split("|") if "|" in owner and ":" in owner else [owner]
